@@ -23,6 +23,9 @@ PALETTE = {
     # strings that begin (or consist of) doubled delimiter characters: in CIF 1.1 'q2' stands as '''x''' - which is not a
     # triple-quoted string there
     "q2": "''x''", "dq2": '""y', "qq": "''", "q2sp": "''x y",
+    # supplementary characters whose trail surrogate looks like that of a noncharacter (DFFE / DFFF) although their lead
+    # surrogate says otherwise; and the last characters before the noncharacters of their planes
+    "u4e": "a\U0001f3ffz\U000103fe", "u4l": "\U0001fffd\U0010fffd",
     "stopx": "stop_codon", "STOPx": "STOP_1", "loopx": "loop_x", "globalx": "global_x", "qmark": "?abc", "dotx": ".5a",
 }
 
